@@ -3,6 +3,7 @@ CONSTANTS
   Mech = "intent"
   MaxOn = 2
   SrvSel = "small"
+  Focus = {"version", "validate", "enable_schedule", "disable_schedule", "test_connection", "support", "diagnosis", "checkin", "status", "unregister", "register", "offline", "no_upload", "keep_archive", "list_specs", "show_results", "check_results", "force", "compliance", "legacy", "payload"}
 INVARIANT TypeOK
 INVARIANT I_OneExit
 INVARIANT I_Compose
